@@ -6,7 +6,7 @@ NOT_APPLICABLE = {}
 
 PROPS = {
     "C01": {
-        "src": "c01", "engine": "rc", "level": "exploration",
+        "src": "c01", "engine": "rc", "hang_seconds": 240, "level": "exploration",
         "technique": "property-based testing (rapidcheck) against a reference matcher written from the manual",
         "level_text": ("Generated (declaration, buffer) pairs are scanned by the real engine under ASan and the full "
                        "per-string match list (offset, length, xor key, order) is compared with a naive matcher "
@@ -29,7 +29,7 @@ PROPS = {
         ],
     },
     "C02": {
-        "src": "c02", "engine": "rc", "level": "exploration",
+        "src": "c02", "engine": "rc", "hang_seconds": 240, "level": "exploration",
         "technique": "property-based testing (rapidcheck) against a set-semantics reference matcher over the hex-string AST",
         "level_text": ("Generated hex-string ASTs (bytes, nibble masks, negations, jumps on both sides of the 200-byte "
                        "chaining threshold, nested alternatives) are printed, compiled and scanned over buffers sampled "
@@ -48,7 +48,7 @@ PROPS = {
                         "for variable-length patterns any satisfying length is accepted at an offset"],
     },
     "C03": {
-        "src": "c03", "engine": "rc", "level": "exploration",
+        "src": "c03", "engine": "rc", "hang_seconds": 240, "level": "exploration",
         "technique": "property-based testing (rapidcheck) against a set-semantics reference regexp matcher; MUST/MAY bounds for fullword",
         "level_text": ("Generated regexp ASTs (all node kinds of the manual: literals, classes, dot, groups, alternation incl. "
                        "empty alternative, greedy or lazy * + ? {n} {n,} {,m} {n,m}, anchors, word boundaries, /i /s, nocase, "
@@ -73,7 +73,7 @@ PROPS = {
         ],
     },
     "C04": {
-        "src": "c04", "engine": "rc", "level": "exploration",
+        "src": "c04", "engine": "rc", "hang_seconds": 240, "level": "exploration",
         "technique": "property-based testing (rapidcheck): generated typed condition trees vs a reference interpreter written from the manual",
         "level_text": ("Typed expression trees over every operator family (string presence/count/offset/length, at/in, of and "
                        "for..of / for..in with every quantifier form, integer/float arithmetic, bitwise, shifts, comparisons, "
@@ -98,7 +98,7 @@ PROPS = {
         ],
     },
     "C05": {
-        "src": "c05", "engine": "rc", "level": "exploration",
+        "src": "c05", "engine": "rc", "hang_seconds": 240, "level": "exploration",
         "technique": "differential property-based testing (rapidcheck): the same rule compiled in different company / order / source distribution must give identical matches",
         "level_text": ("Generated rule sets (text, hex and regexp strings built around shared byte material so that atoms, "
                        "automaton prefixes/suffixes and pooled literals coincide; namespaces; global/private rules; rule "
@@ -117,7 +117,7 @@ PROPS = {
         "assumptions": ["identical match lists are required including reported lengths of variable-length strings"],
     },
     "C08": {
-        "src": "c08", "engine": "rc", "level": "exploration",
+        "src": "c08", "engine": "rc", "hang_seconds": 240, "level": "exploration",
         "technique": "round-trip property-based testing (rapidcheck): save/load through memory streams, chunked pipes and files; byte-identity across saves, compilations and processes",
         "level_text": ("Generated rule sets covering every construct class are saved and loaded back through an exact "
                        "in-memory stream, a pipe-backed FILE* fed in generated chunk sizes (buffered and unbuffered) and "
@@ -138,7 +138,7 @@ PROPS = {
         "assumptions": ["a stream delivers data with fread semantics (full count unless the data ends); chunking happens underneath"],
     },
     "C19": {
-        "src": "c19", "engine": "rc", "level": "exploration",
+        "src": "c19", "engine": "rc", "hang_seconds": 240, "level": "exploration",
         "technique": "configuration-differential property-based testing (rapidcheck) using the YARA_VERIF arena-capacity hook under ASan",
         "level_text": ("Each generated rule set is compiled with the stock 1 MiB initial arena capacity and with 2-5 "
                        "capacities drawn from {1,2,3,5,8,...,65536} and random values, which moves every buffer growth "
@@ -155,7 +155,7 @@ PROPS = {
         "assumptions": [],
     },
     "C12": {
-        "src": "c12", "engine": "rc", "level": "exploration",
+        "src": "c12", "engine": "rc", "hang_seconds": 240, "level": "exploration",
         "technique": "metamorphic property-based testing (rapidcheck): verdict-preserving rewrites of rules, scan flags, atom tables and external redefinitions",
         "level_text": ("For a generated rule (text/hex/regexp strings, condition from the C04 grammar) the check builds "
                        "twins that the manual says are equivalent - `(C) or filesize < 0`, `(C) and filesize >= 0`, integer "
@@ -175,7 +175,7 @@ PROPS = {
         "assumptions": [],
     },
     "C20": {
-        "src": "c20", "engine": "rc", "level": "exploration", "leaks": True,
+        "src": "c20", "engine": "rc", "hang_seconds": 240, "level": "exploration", "leaks": True,
         "technique": "stateful / model-based property testing (rapidcheck): generated define/create/scan histories vs a three-level environment model",
         "level_text": ("Generated histories of external-variable definitions at compiler, rule-set and scanner level (all four "
                        "types; valid, duplicate, unknown identifier, incompatible type), scanner creations, scans and scanner "
@@ -196,7 +196,7 @@ PROPS = {
         "assumptions": ["a run-time `v of (...)` with v == 0 means none; negative v means 'at least v' (always true)"],
     },
     "C11": {
-        "src": "c11", "engine": "rc", "level": "exploration",
+        "src": "c11", "engine": "rc", "hang_seconds": 240, "level": "exploration",
         "technique": "model-based property testing (rapidcheck) of the callback message sequence, exhaustive over the interruption index and reply",
         "level_text": ("For generated rule sets (plain / private / global / global private rules over 1-3, sometimes 9-12, namespaces, rule "
                        "references, 0-3 imports per rule incl. the same module from several namespaces, conditions from the "
@@ -257,7 +257,7 @@ PROPS = {
         "assumptions": [],
     },
     "C14": {
-        "src": "c14", "engine": "rc", "level": "exploration",
+        "src": "c14", "engine": "rc", "hang_seconds": 240, "level": "exploration",
         "technique": "property-based testing (rapidcheck) against independent reference implementations (OpenSSL digests, bitwise CRC-32, long-double statistics, hand-written numeral table)",
         "level_text": ("For generated buffers (0-24 bytes with ranges drawn densely around the borders, and up to 5000 bytes "
                        "in 1-3 contiguous blocks) a rule set of 8-60 shuffled requests - hash.md5/sha1/sha256/crc32/"
